@@ -79,12 +79,15 @@ def lanczos_cases(ctx):
         if kind == "nearinv":
             # start vector close to an invariant subspace: small but legitimate residual norms
             w, U = np.linalg.eigh(A)
-            v = U[:, 0] + 2.0 ** -int(rng.integers(6, 22)) * U[:, -1] + (2.0 ** -int(rng.integers(6, 22)) * U[:, 1] if n > 2 else 0.0)
+            v = U[:, 0] + 2.0 ** -int(rng.integers(6, 13)) * U[:, -1] + (2.0 ** -int(rng.integers(6, 13)) * U[:, 1] if n > 2 else 0.0)
         if kind == "diag" and i % 2:
             v[rng.integers(0, n)] = 0.0          # start vector inside an invariant subspace
             if not np.any(v):
                 v[0] = 1.0
         order = int(rng.integers(1, n + 1))
+        if kind == "nearinv":
+            # exact Krylov dimension is 3 (2 for n = 2): stay below it, beyond it the float recurrence is rounding noise
+            order = min(order, 2 if n > 2 else 1)
         out.append({"kind": "lanczos", "A": A.tolist(), "v": v.tolist(), "order": order})
     return out
 
